@@ -1,5 +1,6 @@
 import Astisub.Model.Types
 import Astisub.Model.Graph
+import Astisub.Model.Subs
 
 /-!
 # Proto — the line protocol shared by the Go harness and the Lean driver
@@ -167,6 +168,138 @@ def encGraph (g : Graph) : String :=
   let rs := toString regs.length :: regs.map fun (k, d) => s!"{k}={d.id}:{encChain d.style}:{d.tag}"
   let ss := toString stys.length :: stys.map fun (k, d) => s!"{k}={d.id}:{encChain d.parent}:{d.tag}"
   " ".intercalate (its ++ rs ++ ss)
+
+end Proto
+end Astisub
+
+namespace Astisub
+namespace Proto
+
+/-! ## canonical `Subtitles` (see harness/canon.go) -/
+
+def encS' (s : List Char) : String := encStr (String.ofList s)
+def decS' (tok : String) : Option (List Char) := (decStr tok).map String.toList
+
+def encRef (r : Option (List Char)) : String := match r with | none => "-" | some s => encS' s
+def decRef (tok : String) : Option (Option (List Char)) := if tok = "-" then some none else (decS' tok).map some
+
+def encAttrs : Attrs → List String
+  | none => ["N"]
+  | some kv => s!"A{kv.length}" :: kv.map fun (k, v) => String.ofList k ++ "=" ++ encS' v
+
+def decAttrs : List String → Option (Attrs × List String)
+  | "N" :: rest => some (none, rest)
+  | a :: rest =>
+    match a.toList with
+    | 'A' :: n =>
+      match (String.ofList n).toNat? with
+      | some n =>
+        if rest.length < n then none else
+        match mapM? (fun (t : String) =>
+            match t.splitOn "=" with
+            | [k, v] => (decS' v).map fun v => (k.toList, v)
+            | _ => none) (rest.take n) with
+        | some kv => some (some kv, rest.drop n)
+        | none => none
+      | none => none
+    | _ => none
+  | [] => none
+
+def encLItem (li : LItem) : List String :=
+  ["T", encS' li.text, toString li.startAt, encRef li.style] ++ encAttrs li.attrs
+
+def encLine (l : Line) : List String :=
+  ["L", encS' l.voice, toString l.items.length] ++ l.items.flatMap encLItem
+
+def encCItem (it : CItem) : List String :=
+  ["I", toString it.index, toString it.startAt, toString it.endAt, encRef it.style, encRef it.region]
+    ++ encAttrs it.attrs ++ [toString it.comments.length] ++ it.comments.map encS'
+    ++ [toString it.lines.length] ++ it.lines.flatMap encLine
+
+def encSDef (d : Def) : List String := ["D", encS' d.id, encRef d.ref] ++ encAttrs d.attrs
+
+def sortDefs (l : List Def) : List Def := l.mergeSort (fun a b => !strLt b.id a.id)
+
+def encSubsToks (s : Subs) : List String :=
+  ["S", toString s.items.length] ++ s.items.flatMap encCItem
+    ++ [toString s.regions.length] ++ (sortDefs s.regions).flatMap encSDef
+    ++ [toString s.styles.length] ++ (sortDefs s.styles).flatMap encSDef
+    ++ encAttrs s.metadata
+
+def encSubs (s : Subs) : String := " ".intercalate (encSubsToks s)
+
+/-- parse `n` things with a parser that consumes a prefix of the token list -/
+def repeatP {α} (p : List String → Option (α × List String)) : Nat → List String → Option (List α × List String)
+  | 0, ts => some ([], ts)
+  | n + 1, ts =>
+    match p ts with
+    | some (a, ts') =>
+      match repeatP p n ts' with
+      | some (as, ts'') => some (a :: as, ts'')
+      | none => none
+    | none => none
+
+def countP {α} (p : List String → Option (α × List String)) : List String → Option (List α × List String)
+  | n :: ts => match n.toNat? with
+    | some n => repeatP p n ts
+    | none => none
+  | [] => none
+
+def decLItem : List String → Option (LItem × List String)
+  | "T" :: t :: st :: sty :: rest =>
+    match decS' t, st.toInt?, decRef sty, decAttrs rest with
+    | some t, some st, some sty, some (a, rest) => some ({ text := t, startAt := st, style := sty, attrs := a }, rest)
+    | _, _, _, _ => none
+  | _ => none
+
+def decLine : List String → Option (Line × List String)
+  | "L" :: v :: rest =>
+    match decS' v, countP decLItem rest with
+    | some v, some (items, rest) => some ({ voice := v, items := items }, rest)
+    | _, _ => none
+  | _ => none
+
+def decStrTok : List String → Option (List Char × List String)
+  | t :: rest => (decS' t).map fun s => (s, rest)
+  | [] => none
+
+def decCItem : List String → Option (CItem × List String)
+  | "I" :: idx :: s :: e :: sty :: reg :: rest =>
+    match idx.toInt?, s.toInt?, e.toInt?, decRef sty, decRef reg, decAttrs rest with
+    | some idx, some s, some e, some sty, some reg, some (a, rest) =>
+      match countP decStrTok rest with
+      | some (comments, rest) =>
+        match countP decLine rest with
+        | some (lines, rest) =>
+          some ({ index := idx, startAt := s, endAt := e, style := sty, region := reg, attrs := a,
+                  comments := comments, lines := lines }, rest)
+        | none => none
+      | none => none
+    | _, _, _, _, _, _ => none
+  | _ => none
+
+def decSDef : List String → Option (Def × List String)
+  | "D" :: id :: ref :: rest =>
+    match decS' id, decRef ref, decAttrs rest with
+    | some id, some ref, some (a, rest) => some ({ id := id, ref := ref, attrs := a }, rest)
+    | _, _, _ => none
+  | _ => none
+
+def decSubs : List String → Option (Subs × List String)
+  | "S" :: rest =>
+    match countP decCItem rest with
+    | some (items, rest) =>
+      match countP decSDef rest with
+      | some (regions, rest) =>
+        match countP decSDef rest with
+        | some (styles, rest) =>
+          match decAttrs rest with
+          | some (m, rest) => some ({ items := items, regions := regions, styles := styles, metadata := m }, rest)
+          | none => none
+        | none => none
+      | none => none
+    | none => none
+  | _ => none
 
 end Proto
 end Astisub
